@@ -24,7 +24,7 @@ THEOREMS = [
     "PM.C09Flat.flat_follows_spec", "PM.C09Flat.flat_complete_iff_all_arrived",
     # ... and Parser.add / parse_stream over flat tasks refine the trie parser (Proofs/ParseFlatParser.lean)
     "PM.FParser.add_refines", "PM.FParser.feed_refines", "PM.pdom_of_spec", "PM.C09Flat.flat_parse_stream_follows_spec",
-    "PM.C09Flat.PInv.get",
+    "PM.C09Flat.PInv.get", "PM.C09Flat.flat_perm_invariant",
 ]
 # theorems about the decisions of parse.py *translated from the current source* (extractor E12, lean/Eliot/Generated/ParseRule.lean)
 RULE_THEOREMS = ["PM.C09Rule.completeNow_is_translated", "PM.C09Rule.visit_is_translated", "PM.C09Rule.shapes"]
@@ -36,7 +36,9 @@ RULE = ("histories = permutations / sub-multisets / task interleavings of the me
         "(duplicates, type clashes, wrong status, message under a message) used only to validate the model's error branches; "
         "non-trivial = well-formed history with >= 2 tasks or depth >= 2 that is not in emission order; distinct by canonical hash")
 TRUSTED = ["pyrsistent (PClass/pmap equality) as used by eliot.parse", "message payloads are abstracted to an integer id (the parser never inspects other fields)"]
-ASSUMPTIONS = ["well-formed input: messages are a duplicate-free sub-list of the messages of a forest of action trees with distinct task uuids",
+ASSUMPTIONS = ["the order in which parse_stream hands out the incomplete leftovers at the end of the stream is not compared (pmap hash order in the code, association-list order in the models)",
+               "a message whose action_status is present but null is outside the models' message type (status = absent); the generator never writes a null status",
+               "well-formed input: messages are a duplicate-free sub-list of the messages of a forest of action trees with distinct task uuids",
                "the model answers outOfDomain (error underMessage) where a message arrives below a plain message; no property quantifies over such streams"]
 EXPLANATION = "theorems over the trie model of eliot.parse; model tied to the code by step-by-step state comparison"
 
